@@ -85,13 +85,18 @@ def effects_match(summary, alt, action_id) -> List[str]:
     return diffs
 
 
-def check_cells(model: FsmModel, rep, rule_eff='C04.T3', rule_next='C04.T4'):
-    """Evaluate every defined cell; returns {(e,s): [(outcome, summary)]} for reuse."""
+def check_cells(model: FsmModel, rep, rule_eff='C04.T3', rule_next='C04.T4', only=None):
+    """Evaluate every defined cell (``only``: a predicate on (event, state) selecting a subset); returns
+    {(e,s): [(outcome, summary)]} for reuse."""
     results = {}
     for (e, s), action_id in sorted(ps3_8.TABLE.items()):
+        if only is not None and not only(e, s):
+            continue
         en, sn = 'EVT_%d' % e, 'STA_%d' % s
         meth = model.table.get((en, sn))
         if meth is None:
+            if only is not None:
+                rep.bad(rule_eff, cell_key(e, s), model.sm.loc(), 'cell (Evt%d, Sta%d) of Table 9-10 is not in the transition table' % (e, s))
             continue
         prim, sock = cell_context(e, s)
         f = model.sm.find_method(meth)
